@@ -5,7 +5,7 @@ from rules import anchors, common
 
 CLAIMED = True
 TECHNIQUE = "static analysis over type-checked MIR: CFG reachability from the Response switch arms (chain interpreter), loop-exit analysis for error isolation, single handler site per error, comparison normal form of the threshold filter"
-LEVEL_TEXT = """Static, all-paths decision of: (F1) the chain interpreter in the per-appender delivery function: from the switch on Filter::filter's Response the Accept arm reaches Append::append without another filter call, the Reject arm cannot reach Append::append and returns Ok, the Neutral arm returns to the iterator step, exhaustion reaches Append::append; (F2) filters are iterated forward over the stored vector and builders append in call order; (F3) in the node's delivery loop the only loop exit is iterator exhaustion and the Err arm records the error and continues; (F4) Log::log calls the error handler at exactly one site, once per item of the returned error vector; (F5) ThresholdFilter::filter returns Reject exactly on record_level > threshold and Neutral otherwise (never Accept). User-supplied filters/appenders are not decided. (F2, cont.) no call anywhere in the crate sorts, reverses, removes from or otherwise reorders a list of filters in place. (F9) the handler comes from the snapshot that made the delivery (C15.A1); (F10) build_lossy never pairs one definition's sink with another's filters (C13.V9). (F11) a section's filters are read as one sequence (C14.K16)."""
+LEVEL_TEXT = """Static, all-paths decision of: (F1) the chain interpreter in the per-appender delivery function: from the switch on Filter::filter's Response the Accept arm reaches Append::append without another filter call, the Reject arm cannot reach Append::append and returns Ok, the Neutral arm returns to the iterator step, exhaustion reaches Append::append; (F2) filters are iterated forward over the stored vector and builders append in call order; (F3) in the node's delivery loop the only loop exit is iterator exhaustion and the Err arm records the error and continues; (F4) Log::log calls the error handler at exactly one site, once per item of the returned error vector; (F5) ThresholdFilter::filter returns Reject exactly on record_level > threshold and Neutral otherwise (never Accept). User-supplied filters/appenders are not decided. (F2, cont.) no call anywhere in the crate sorts, reverses, removes from or otherwise reorders a list of filters in place. (F9) the handler comes from the snapshot that made the delivery (C15.A1); (F10) build_lossy never pairs one definition's sink with another's filters (C13.V9). (F11) a section's filters are read as one sequence (C14.K16). (F1, cont.) every return of Appender::append lies behind a filter call, the iterator step or the sink call (no verdict of the wrapper itself), and every return of Log::log lies behind the call of the node delivery function (no record dropped on a per-thread flag or counter)."""
 LEVEL_NOTE = "Trusted: rustc MIR/callee resolution; Vec/slice iterators yield elements in order. Decides the interpreter's control-flow shape for every chain at once; behaviour of user components is outside."
 EXPLANATION = """Decided: F1 chain interpreter arms, F2 declaration order, F3 error isolation, F4 once per error, F5 threshold comparator. Undecided: behaviour of user-supplied Filter/Append implementations."""
 DECIDED = ["F1 Accept/Reject/Neutral arms", "F2 forward iteration, push order", "F3 loop exits only by exhaustion", "F4 one handler call per error", "F5 record_level > threshold => Reject else Neutral", "F6 a fresh filter list per appender in the lossy loader", "F7 a log::Log used as an appender is handed every admitted record"]
